@@ -1,8 +1,10 @@
 package chain
 
 import (
+	"bytes"
 	"context"
 	"fmt"
+	"os"
 	"runtime"
 	"time"
 
@@ -22,8 +24,6 @@ type DB struct {
 	Perm   *isaacdatabase.LeveldbPermanent
 	Center *isaacdatabase.Center
 	cache  int
-	// number of goroutines right after open: Reopen / Close wait until the count is back there
-	baseline int
 }
 
 func NewDB(w *World, stcachesize int) *DB {
@@ -50,20 +50,56 @@ func (d *DB) open() error {
 		return err
 	}
 	d.St, d.Perm, d.Center = st, perm, center
-	d.baseline = runtime.NumGoroutine()
 	return nil
 }
 
 // quiesce: Center.dig cancels its job worker as soon as one temp answers (ExistsInStateOperation,
 // ExistsKnownOperation); jobs that are already running keep reading the storage after the read has
-// returned (util.BaseJobWorker.Wait does not wait for them on cancel). Closing the leveldb under them
-// panics inside goleveldb ("cache.Value is nil, not *table.Reader") -- observed in the thorough tier.
-// "Reopen at a quiescent point" therefore waits until those stray jobs are gone.
+// returned (util.BaseJobWorker.Wait does not wait for them on cancel -- C33's finding). Closing the leveldb
+// under them panics inside goleveldb ("cache.Value is nil, not *table.Reader"). A "quiescent point" therefore
+// means: no OTHER goroutine has a frame of the code under test on its stack (the caller itself only has
+// harness frames above this function). Counting goroutines is not enough (goleveldb's own background
+// goroutines come and go), so the stacks are scanned.
 func (d *DB) quiesce() {
-	deadline := time.Now().Add(2 * time.Second)
-	for runtime.NumGoroutine() > d.baseline && time.Now().Before(deadline) {
-		time.Sleep(100 * time.Microsecond)
+	Quiesce()
+}
+
+// Quiesce waits (up to 60 s) until no other goroutine is inside github.com/spikeekips/mitum code.
+func Quiesce() {
+	deadline := time.Now().Add(60 * time.Second)
+	buf := make([]byte, 1<<20)
+	for wait := 50 * time.Microsecond; ; {
+		if !othersInsideMitum(buf) {
+			return
+		}
+		if time.Now().After(deadline) {
+			fmt.Fprintln(os.Stderr, "chain.Quiesce: goroutines still inside mitum after 60s; closing anyway")
+			return
+		}
+		time.Sleep(wait)
+		if wait < 5*time.Millisecond {
+			wait *= 2
+		}
 	}
+}
+
+func othersInsideMitum(buf []byte) bool {
+	n := runtime.Stack(buf, true)
+	for n == len(buf) && len(buf) < 64<<20 {
+		buf = make([]byte, 2*len(buf))
+		n = runtime.Stack(buf, true)
+	}
+	// the first record is the calling goroutine
+	recs := bytes.Split(buf[:n], []byte("\n\n"))
+	for i, rec := range recs {
+		if i == 0 {
+			continue
+		}
+		if bytes.Contains(rec, []byte("github.com/spikeekips/mitum/")) {
+			return true
+		}
+	}
+	return false
 }
 
 // Reopen closes the storage (everything in memory is dropped) and rebuilds permanent + center from it.
